@@ -387,7 +387,7 @@ func dumpFiles(files map[string]string) string {
 
 func init() { reg("c16", checkC16) }
 
-var badDictKinds = []string{"dangling-attribute", "dangling-extends", "cycle-1", "cycle-2", "cycle-3", "lasso-1", "lasso-2", "lasso-display", "cycle-via-display", "unnamed-chord", "unnamed-attribute"}
+var badDictKinds = []string{"dangling-attribute", "dangling-extends", "cycle-1", "cycle-2", "cycle-3", "lasso-1", "lasso-2", "lasso-display", "cycle-via-display", "dangling-extends-name-is-display", "dangling-attribute-name-is-display", "cycle-name-is-display", "unnamed-chord", "unnamed-attribute"}
 
 // badDictExtra returns the entries that make a dictionary inconsistent in the given way.
 func badDictExtra(bad string) ([]UChord, []UAttr) {
@@ -410,6 +410,12 @@ func badDictExtra(bad string) ([]UChord, []UAttr) {
 		return []UChord{{Name: "Lead", Display: "lead", Attrs: []string{"Major3"}, Extends: "cyc1"}, {Name: "Cyc1", Display: "cyc1", Attrs: []string{"Perfect1"}, Extends: "cyc1"}}, nil
 	case "cycle-via-display":
 		return []UChord{{Name: "CycA", Display: "cyca", Attrs: []string{"Perfect1"}, Extends: "cycb"}, {Name: "CycB", Display: "cycb", Extends: "cyca"}}, nil
+	case "dangling-extends-name-is-display": // a chord registered under one key only (name == display)
+		return []UChord{{Name: "pow", Display: "pow", Attrs: []string{"Perfect1"}, Extends: "NoSuchChord"}}, nil
+	case "dangling-attribute-name-is-display":
+		return []UChord{{Name: "pox", Display: "pox", Attrs: []string{"Perfect1", "NoSuchAttribute"}}}, nil
+	case "cycle-name-is-display":
+		return []UChord{{Name: "cyx", Display: "cyx", Attrs: []string{"Perfect1"}, Extends: "cyy"}, {Name: "cyy", Display: "cyy", Extends: "cyx"}}, nil
 	case "unnamed-chord":
 		return []UChord{{Name: "", Display: "noname", Attrs: []string{"Perfect1"}}}, nil
 	case "unnamed-attribute":
@@ -461,6 +467,9 @@ func genDict(t *rapid.T) (Dict, []string) {
 			c = UChord{Name: theory.LongNames[disp], Display: disp}
 		} else {
 			c = UChord{Name: fmt.Sprintf("User%s%d", rapid.StringMatching(`[A-Za-z]{1,6}`).Draw(t, "cname"), i), Display: fmt.Sprintf("u%d%s", i, rapid.StringMatching(`[a-z+]{0,3}`).Draw(t, "cdisp"))}
+			if coin(t, "name-is-display", 15) {
+				c.Name = c.Display
+			}
 		}
 		c.Attrs = pickAttrs()
 		if coin(t, "extends", 60) || len(c.Attrs) == 0 {
